@@ -17,6 +17,16 @@ CHECKS.update({
          "Operation ids of every merged document are checked against the stated rules under the stated precondition (re-verified per case); collisions placed under each of the seven methods, primary-vs-mixin and mixin-vs-mixin, with 0..4 id-less operations, plus random sets.", "7/C18"),
  "C20": ("schema", "exploration", "runtime monitor: coherence predicates + $ref-transparency comparison + reference classifier on every observed Schema() result; recursion-depth hook budget (H3) and process-level fatal attribution for termination",
          "Every Schema() call over the systematic grammar (depth<=2, each also through one and two $refs, inside a root with self-containing arrays/maps and mutual recursion), random schemas and fixture positions is checked for flag coherence, $ref transparency and agreement with a reference classifier of the documented rules; non-termination is witnessed deterministically by a depth budget.", "7/C20"),
+ "C11": ("analyzer", "exploration", "runtime monitor: independent section-aware walk of the serialized document compared (as multisets per kind) with the reference getters after every analysis.New",
+         "Every $ref-bearing place named by the statement is planted systematically (7 containers x 11 keywords x depth 1..3, non-schema kinds, plain and hostile names), plus random documents and fixtures; completeness and soundness are checked per kind with multiplicity.", "7/C11"),
+ "C12": ("analyzer", "exploration", "runtime monitor: bijection between walked schema positions and AllDefinitions(), each index pointer resolved against the serialized and the live document",
+         "For every generated/fixture document each SchemaRef is resolved (own RFC 6901 resolver on the serialized document, and Ref.GetPointer() on the live one) and compared with the schema it claims to denote; TopLevel and allOf flags compared with the walk; names over the hostile alphabet.", "7/C12"),
+ "C13": ("analyzer", "exploration", "runtime monitor: (pointer -> value) maps per owner category from an independent walk vs the ten pattern/enum getters",
+         "Patterns and enums are planted at each owner kind and location (parameters at 3 levels, items depth 1..3, headers of shared/default/coded responses, schemas depth 0..3 in 7 containers) and compared per category and in the All view, plus random documents and fixtures.", "7/C13"),
+ "C14": ("analyzer", "exploration", "runtime monitor: executable reference model of operation/media-type/security lookups compared with every getter answer; exhaustive decision tables",
+         "All 128 method subsets, the 9+9 consumes/produces tables and the 25x2 security tables are enumerated; every lookup of the statement is compared with a reference model over generic JSON, plus random documents and fixtures.", "7/C14"),
+ "C15": ("analyzer", "exploration", "runtime monitor: reference model of effective parameters + callback-protocol and panic/no-panic observation on every method x path x id query",
+         "For each document every method x path (existing or not) and every id (known or not) is queried through the four variants; results compared as sets with a reference model, callback arguments and panics observed.", "7/C15"),
 })
 PENDING = {}
 
